@@ -189,6 +189,9 @@ def _acc_expr(fl, e, node, param, depth=6):
             return False
         if isinstance(x, ast.Name):
             return x.id == param
+        if isinstance(x, ast.Subscript) and isinstance(x.slice, ast.Constant) and x.slice.value == 1 and isinstance(x.value, ast.Call) and \
+                call_name(x.value) in ("_to_registry", "_build_from_id", "_from_registry", "_to_dict", "_from_dict", "_from_dict_helper"):
+            return True          # result[1]: the accumulator element of a registry call's (object, accumulator) pair
         if isinstance(x, ast.Call):
             nm = call_name(x)
             if nm in ("__phi__", "__gamma__"):
@@ -251,6 +254,15 @@ def rule_threading(ck):
                             tgt_ids = {id(q) for t in m.stmt.targets for q in ast.walk(t)}
                         for q in [e] + list(walk_local(e)):
                             if isinstance(q, ast.Name) and q.id == x and isinstance(q.ctx, ast.Load) and id(q) not in tgt_ids and node in fl.defs_at(m, x):
+                                used = True
+            if not used and isinstance(st, ast.Assign) and st.value is c and len(st.targets) == 1 and isinstance(st.targets[0], ast.Name):
+                # pair kept in one variable: its accumulator element  x[1]  is read afterwards
+                x = st.targets[0].id
+                for m in fl.cfg.nodes:
+                    for e in fl.cfg.node_exprs(m):
+                        for q in [e] + list(walk_local(e)):
+                            if isinstance(q, ast.Subscript) and isinstance(q.value, ast.Name) and q.value.id == x and isinstance(q.slice, ast.Constant) and q.slice.value == 1 \
+                                    and isinstance(q.ctx, ast.Load) and node in fl.defs_at(m, x):
                                 used = True
             ck.require(used, "C09.R3", f, st if st is not None else c, ok=f"the returned {want} is carried on",
                        bad=f"the accumulator returned by the call is dropped: objects registered by the callee are forgotten", sink=f"{f.qual}:{nm}:rebind")
@@ -349,38 +361,17 @@ def rule_memo(ck):
 
 
 def rule_queue_order(ck):
-    """R4: the pending-event heap is dumped and restored in array order, no re-ordering."""
+    """R4: the pending-event heap is dumped and restored in array order, no re-ordering (engine shared with C11.R6: the dumped / restored
+    list is an order-preserving image of the source list, whatever loop or comprehension builds it)."""
     repo = ck.repo
     q = repo.cls("EventQueue")
-    td = repo.method(q, "_to_dict")
-    fl = flow_of(td)
-    loops = [n for n in fl.cfg.nodes if n.kind == "for"]
-    good = [n for n in loops if canon(fl.expand(n.stmt.iter, n)) == "self._queue"]
-    ck.require(bool(good), "C09.R4", td, loops[0].stmt.iter if loops else "for ... in self._queue", ok="iterates the heap array in place order",
-               bad="the dump must iterate self._queue directly (array order carries the heap invariant)", sink="queue:dump-iter")
-    for f in (td, repo.method(q, "_from_dict")):
+    from .c11 import rule_restore
+    rule_restore(ck, rid="C09.R4")
+    for f in (repo.method(q, "_to_dict"), repo.method(q, "_from_dict")):
         fl2 = flow_of(f)
         bad = [c for n, c in calls_in(fl2) if call_name(c) in ("sorted", "sort", "reversed", "reverse", "heapify", "shuffle", "insert", "appendleft")]
         ck.require(not bad, "C09.R4", f, bad[0] if bad else f.qual, ok="no re-ordering call", bad=f"re-ordering call {src(bad[0]) if bad else ''} in the queue's (de)serialisation",
                    sink=f"queue:{f.name}:reorder")
-        # list built by append in loop order
-        for n, c in calls_in(fl2, "append"):
-            loops_ = [t for t, lab in fl2.cfg.edges_dominating(n) if t.kind == "for" and lab is True]
-            ck.require(len(loops_) == 1, "C09.R4", f, c, ok="appended once per element, in iteration order", bad="append not inside exactly one loop", sink=f"queue:{f.name}:append")
-            conds = [t for t, lab in fl2.cfg.edges_dominating(n) if t.kind == "test"]
-            ck.require(not conds, "C09.R4", f, c, ok="unconditional", bad="pending events are filtered during (de)serialisation", sink=f"queue:{f.name}:filter")
-            # the element keeps (timestamp, event) order
-            a = c.args[0] if c.args else None
-            ok = isinstance(a, ast.Tuple) and len(a.elts) == 2 and loops_ and isinstance(loops_[0].stmt.target, ast.Tuple) \
-                and dotted(a.elts[0]) == dotted(loops_[0].stmt.target.elts[0])
-            ck.require(bool(ok), "C09.R4", f, c, ok="entry = (same timestamp, event)", bad="the (timestamp, event) entry is not rebuilt with the dumped timestamp first",
-                       sink=f"queue:{f.name}:entry")
-    fd = repo.method(q, "_from_dict")
-    fl3 = flow_of(fd)
-    it = [n for n in fl3.cfg.nodes if n.kind == "for"]
-    ok = any(canon(fl3.expand(n.stmt.iter, n)) == "attribute_dict['_queue']" for n in it)
-    ck.require(ok, "C09.R4", fd, it[0].stmt.iter if it else "for ... in attribute_dict['_queue']", ok="restores in dumped order",
-               bad="the restore must iterate attribute_dict['_queue'] in order", sink="queue:load-iter")
 
 
 def rule_resumable(ck):
